@@ -37,7 +37,7 @@ def plan(tier):
                    "all_encodings": "all 2^16 Thumb halfwords as the single instruction of an IT block; every decode leaf of the "
                                     "ARM and Thumb-32 spaces (lazy-word partition, wide cap %d) with the free bits set to "
                                     "{all-0, all-1%s}; conds {EQ,NE} x NZCV {0000,0100} (each cond fails once and passes once)" % (
-                                        cap, "" if tier == "quick" else ", 0101.., 1010.."),
+                                        cap, "" if tier == "quick" else ", 0101.., 1010.., every walking 1"),
                    "excluded": "instances whose AL execution is UNDEFINED (IMPLEMENTATION DEFINED when the condition "
                                "fails) or that from_bitarray rejects as UNPREDICTABLE in that context"},
         "exhaustive": True,
@@ -132,6 +132,7 @@ def leaves32(res, cpu, plan, base, kind, cube, cap, tier):
         mem = [val, val | fm]
         if tier != "quick":
             mem += [val | (fm & 0x55555555), val | (fm & 0xAAAAAAAA)]
+            mem += [val | (1 << b) for b in range(32) if (fm >> b) & 1]          # every walking 1 of the free bits
         done = set()
         for w in mem:
             if w in done:
